@@ -187,29 +187,36 @@ def _probe(args):
 
 
 def run_probes(props, repo):
-    """alpha-renaming of every function-local variable (+ ast.unparse normalisation) of the whole package."""
-    from .alpha import write_tree
-    tmp = tempfile.mkdtemp(prefix="cxa_alpha_")
+    """whole-package behaviour-preserving transformations: (1) alpha-renaming of every function-local variable (+ ast.unparse
+    normalisation); (2) consistent renaming of every private function / method together with the local variables (the rules'
+    private anchors are found again by rename detection, cxa/canon.py).  No new finding, no analysis error, no lost coverage."""
+    from .alpha import write_tree, write_tree_private
     ok = True
-    try:
-        n = write_tree(repo, tmp, rename=True)
-        with ProcessPoolExecutor(max_workers=min(16, max(1, len(props)))) as ex:
-            results = list(ex.map(_probe, [(p, repo, tmp) for p in props]))
-        for prop, out in results:
-            (bf, bc, be), (pf, pc, pe) = out["base"], out["probe"]
-            if pe and not be:
-                ok = False
-                print(f"SELFTEST alpha-renaming probe [{prop}]: analysis error on the renamed tree: {pe}")
-            elif pf - bf:
-                ok = False
-                print(f"SELFTEST false alarm on the alpha-renamed tree [{prop}]: {sorted(pf - bf)[:3]}")
-            elif any(pc.get(k, 0) < v for k, v in bc.items()):
-                ok = False
-                lost = {k: (v, pc.get(k, 0)) for k, v in bc.items() if pc.get(k, 0) < v}
-                print(f"SELFTEST coverage lost on the alpha-renamed tree [{prop}]: {lost}")
-        print(f"selftest probe: {n} local variables renamed, {len(props)} properties compared, {'ok' if ok else 'FAILED'}")
-    finally:
-        shutil.rmtree(tmp, ignore_errors=True)
+    for label, writer in (("alpha-renaming", lambda t: write_tree(repo, t, rename=True)),
+                          ("private-helper renaming", lambda t: write_tree_private(repo, t, also_locals=True))):
+        tmp = tempfile.mkdtemp(prefix="cxa_alpha_")
+        pok = True
+        try:
+            n = writer(tmp)
+            with ProcessPoolExecutor(max_workers=min(16, max(1, len(props)))) as ex:
+                results = list(ex.map(_probe, [(p, repo, tmp) for p in props]))
+            for prop, out in results:
+                (bf, bc, be), (pf, pc, pe) = out["base"], out["probe"]
+                if pe and not be:
+                    pok = False
+                    print(f"SELFTEST {label} probe [{prop}]: analysis error on the transformed tree: {pe}")
+                elif pf - bf:
+                    pok = False
+                    print(f"SELFTEST false alarm on the tree after {label} [{prop}]: {sorted(pf - bf)[:3]}")
+                elif any(pc.get(k, 0) < v for k, v in bc.items()):
+                    pok = False
+                    lost = {k: (v, pc.get(k, 0)) for k, v in bc.items() if pc.get(k, 0) < v}
+                    print(f"SELFTEST coverage lost on the tree after {label} [{prop}]: {lost}")
+            what = "local variables renamed" if label == "alpha-renaming" else "private functions renamed (with their locals)"
+            print(f"selftest probe: {n} {what}, {len(props)} properties compared, {'ok' if pok else 'FAILED'}")
+        finally:
+            shutil.rmtree(tmp, ignore_errors=True)
+        ok = ok and pok
     return ok
 
 
